@@ -122,7 +122,7 @@ func Verif_C09_Client() {
 		return
 	}
 	zv.Reach("emitted")
-	zv.Observe("emitted", m)
+	zv.Observe("emitted", m >= 1) // the exact value depends on the wall clock natively
 	const ms = int64(time.Millisecond)
 	slack := int64(0)
 	if !zv.Symbolic() {
